@@ -9,7 +9,7 @@ F   (T1, frame contracts, recording fake bundlers) with several runs open - the 
     keys (0, '') among them - each handler applies the message to the bundler registered under the message's run key and to no
     other bundler; a key that is not open (a falsy one while the default run is open included) raises IllegalMessageSequence
     (read / configure pass through to the device) without touching any bundler; the handlers that are implicit checkpoints
-    (close_run, monitor, unmonitor) refresh the checkpoint state of *every* run that stays open and of no closed one; opening a key
+    (close_run, monitor, unmonitor) refresh the checkpoint state of *every* run that stays open; opening a key
     that is already open is rejected without disturbing the open runs; a new key gets its own bundler.
 K   set_run_key_wrapper, nested to depth 2, for run keys of every kind (arbitrary int, arbitrary str, an object of arbitrary
     truth value, (), False): a message that carries a key (anything but None) keeps it, an un-keyed one gets the key of the
@@ -117,8 +117,8 @@ for _h, (_m, _absent) in HANDLERS.items():
             if h in IMPLICIT_CHECKPOINTS:
                 still = rest if h == "_close_run" else OPEN_KEYS
                 cache = I.getattr(re_, "_msg_cache")
-                w.check(f"{RE}.{h}{CKPT}", r[0] == "ok" and sorted(resets) == sorted(NAMES[k] for k in still) and cache is not None and len(cache) == 0,
-                        dict(rp, replay="runkeys.interleaved", checkpoint=h[1:], resets=sorted(resets)))
+                w.check(f"{RE}.{h}{CKPT}", r[0] == "ok" and set(NAMES[k] for k in still) <= set(resets) and cache is not None and len(cache) == 0,
+                        dict(rp, replay="runkeys.checkpoint_all", resets=sorted(resets)))
     _mk()
 
 
@@ -337,8 +337,9 @@ def _mk_interleaved(M):
                 before = (len(env.emitted), dict(re_._run_bundlers), list(re_._run_start_uids), dict(re_.md))
                 r = call_async(I, I.getattr(re_, "_open_run"), MsgVal("open_run", None, (), {}, key[R]))
                 now = I.getattr(re_, "_run_bundlers")
-                w.check(DUP, r[0] == "raise" and exc_is(I, r[1], IMS) and len(env.emitted) == before[0] and len(now) == len(before[1])
-                        and all(now[k] is v for k, v in before[1].items()) and list(re_._run_start_uids) == before[2] and dict(re_.md) == before[3], rp)
+                if not w.check(DUP, r[0] == "raise" and exc_is(I, r[1], IMS) and len(env.emitted) == before[0] and len(now) == len(before[1])
+                               and all(now[k] is v for k, v in before[1].items()) and list(re_._run_start_uids) == before[2] and dict(re_.md) == before[3], rp):
+                    raise PathEnd("reported")         # (the open runs are no longer what the rest of the path assumes)
             execute(MsgVal("create", None, (), {"name": "primary"}, key[R]))
             execute(MsgVal("read", runs[R]["dev"], (), {}, key[R]))
             execute(MsgVal("save", None, (), {}, key[R]))
@@ -395,3 +396,102 @@ def _mk_interleaved(M):
 
 for _M in ("close_run_B", "checkpoint"):
     _mk_interleaved(_M)
+
+
+# ------------------------------------------------------------------------------------------------ T2: two run keys under pauses / suspensions / aborts
+# The real _run / __call__ / resume / abort / stop / halt / request_pause / request_suspend under the asyncio model (contracts/t2.py) with an
+# arbitrary plan over open_run / close_run messages of two different run keys (a string and the falsy key 0), abstract bundlers (contract of
+# RunBundler) and every schedule of the environment: what an interruption does to one open run it does to every open run.
+from . import t2 as _t2   # noqa: E402
+
+for _cmd in ("open_run", "close_run"):
+    for _k in ("a", 0):
+        _t2.ALPHABET[f"{_cmd}@{_k}"] = _t2.msg(_cmd, run=_k)
+TRUSTED = TRUSTED + [a for a in _t2.TRUSTED_T2 if a not in TRUSTED] + [
+    "T2: A-ENV: at most one request of another thread is in flight at a time; A-RUNS: a plan opens at most two runs per scenario"]
+T2_KINDS = ("record_interruption", "suspend_monitors", "restore_monitors", "rewind", "reset_checkpoint_state", "clear_checkpoint", "clear_monitors")
+ALIKE = f"{RE}._run#invariant[concurrent runs: whatever an interruption does to one open run (interruption record, monitors suspended / restored, rewind, checkpoint reset / clear) it does to every open run]"
+LIFE = f"{RE}._run#ensures[concurrent runs: when the engine is idle again every run that was opened has been closed exactly once]"
+BYKEY = f"{RE}._close_run#ensures[concurrent runs: a close_run message (of the plan or of the engine's epilogue) closes the run opened under its key]"
+
+
+class C14Runs:
+    """ghost: per pair (older, younger) of open runs and per kind of step, (#steps the older got since the younger opened) - (#steps the
+    younger got); the engine performs these steps in loops over all open runs without a scheduling point in between, so at every
+    scheduling point each difference is 0.  The differences are part of the closure key."""
+
+    def __init__(self, sc, tr):
+        self.sc, self.tr, self.w, self.eng = sc, tr, sc.w, sc.eng
+        self.lag = {}
+        self.key_of = {}
+        self.closed = {}
+        self.stepped = False
+
+    def canon(self, cn):
+        return ("C14", tuple(sorted((p, tuple(sorted(d.items()))) for p, d in self.lag.items())), tuple(sorted(self.closed.items())))
+
+    def compare(self, info, pairs):
+        """at a scheduling point, and when one of the two runs is closed"""
+        w = self.w
+        uneven = sorted((p, k, v) for p in pairs for k, v in self.lag[p].items() if v)
+        if uneven:
+            w.check(ALIKE, False, dict(info, uneven=[f"run #{p[0]} got {abs(v)} {k} {'more' if v > 0 else 'fewer'} than run #{p[1]}" for p, k, v in uneven], step=uneven[0][1]))
+            raise PathEnd("reported")
+        if pairs and self.stepped:
+            w.ok(ALIKE)                   # (two runs open and at least one such step was compared)
+
+    def __call__(self, kind, *a):
+        w, eng = self.w, self.eng
+        info = {"requests": list(self.sc.requests), "replay": "lifecycle.replay"}
+        if kind == "open_run":
+            b = a[0]
+            self.key_of[b.idx] = a[1].run
+            self.closed[b.idx] = 0
+            for o in eng.bundlers:
+                if o is not b and o.open:
+                    self.lag[(o.idx, b.idx)] = {}
+        elif kind == "close_run":
+            b, m = a
+            self.closed[b.idx] = self.closed.get(b.idx, 0) + 1
+            self.compare(info, [p for p in self.lag if b.idx in p])
+            for p in [p for p in self.lag if b.idx in p]:
+                del self.lag[p]
+            key = m.kwargs["run_id"] if "exit_status" in m.kwargs and "run_id" in m.kwargs else m.run
+            w.check(BYKEY, b.idx in self.key_of and key == self.key_of[b.idx] and type(key) is type(self.key_of[b.idx]), dict(info, key=repr(key)))
+        elif kind in T2_KINDS and a and isinstance(a[0], _t2.Bundler):
+            b = a[0]
+            for (o, y), d in self.lag.items():
+                if b.idx == o:
+                    d[kind] = d.get(kind, 0) + 1
+                elif b.idx == y:
+                    d[kind] = d.get(kind, 0) - 1
+                if d.get(kind) == 0:
+                    del d[kind]
+                    self.stepped = True
+        elif kind == "cut":
+            self.compare(info, list(self.lag))
+        elif kind == "returned" and eng.state == "idle":
+            still = [b.idx for b in eng.bundlers if b.open]
+            w.check(LIFE, not still and all(self.closed.get(b.idx) == 1 for b in eng.bundlers), dict(info, open=still, closed=dict(self.closed)))
+
+
+def _c14_runs(sc, tr):
+    tr.checks.append(C14Runs(sc, tr))
+
+
+T2_SCENARIOS = [
+    ("open_run@a,open_run@0,close_run@a,close_run@0,checkpoint", "pause", {"max_requests": 1}),
+    ("open_run@a,open_run@0,close_run@0,custom", "suspend", {"max_requests": 1}),
+    ("open_run@a,open_run@0,close_run@a", "abort", {"max_requests": 1}),
+]
+_t2.t2_tasks(PROP, "two-keys", T2_SCENARIOS, [_c14_runs], expect=[ALIKE, LIFE, BYKEY])
+
+
+def _t2_twin(sc, tr):
+    def check(kind, *a):
+        if kind == "record_interruption":
+            sc.w.check("twin:an interruption is recorded in at most one run", not any(b.open and b is not a[0] for b in sc.eng.bundlers))
+    tr.checks.append(check)
+
+
+_t2.t2_tasks(PROP, "twin", [("open_run@a,open_run@0", "pause", {"max_requests": 1})], [_t2_twin], twin="twin:an interruption is recorded in at most one run")
